@@ -5,6 +5,7 @@ CONSTANTS
   TestBit = "never"
   MaxTcp = 3
   MaxUdp = 2
+  GiveUpResult = "err"
   Export = FALSE
 INVARIANTS C17Inv
 CHECK_DEADLOCK FALSE
